@@ -67,6 +67,7 @@ typedef struct {
   int nhr;
   uint64_t pmask;  /* defined bits of the result, for the comparison of the copies */
   int hiblk;       /* C20 modes: the block of this case lies above 2^32 (absolute addresses that do not fit 32 bits) */
+  char seq[160];   /* @MEMSEQ: seq=<step>,<step>,...  (see build_special) */
   opnd_t dst, x, y;
 } case_t;
 
@@ -131,6 +132,7 @@ static int parse_case (char *line, case_t *c) {
     else if (strncmp (tok, "press=", 6) == 0) c->press = atoi (tok + 6);
     else if (strncmp (tok, "far=", 4) == 0) c->far = atoi (tok + 4);
     else if (strncmp (tok, "hiblk=", 6) == 0) c->hiblk = atoi (tok + 6);
+    else if (strncmp (tok, "seq=", 4) == 0) strncpy (c->seq, tok + 4, sizeof (c->seq) - 1);
     else if (strncmp (tok, "hr=", 3) == 0) {
       const char *q = tok + 3;
       while (*q != 0 && c->nhr < 8) {
@@ -425,6 +427,68 @@ static MIR_item_t build_special (MIR_context_t ctx, case_t *c, const char *name)
     I2 (MIR_LDMOV, blk (&b, MIR_T_LD, 96), RO (r1));
     if (two) I2 (MIR_LDMOV, blk (&b, MIR_T_LD, 192), RO (r2));
     I2 (MIR_MOV, RO (r), IO (0));
+  } else if (!strcasecmp (k, "MEMSEQ")) {
+    /* A sequence of memory accesses of different types (sign, size) to ONE cell in one function.  x is a memory operand
+       (form b): its cell [128,144) is filled by the caller and its address is read from the block, so the function knows
+       neither the address nor the content.  y is the first value stored.  Steps of seq=:
+         L<ty>[@off]  t = ty:off(a); r = r * 1000003 + t     (every load into a fresh register, all stay live)
+         S<ty>[@off]  ty:off(a) = v; v = v * 5 + 0x1234567   (the value register changes after every store)
+         B            a new basic block (jump to a fresh label)
+         X            the loaded values are only added to the hash at the end (all loads first, uses later)
+       Result: the hash r; the final content of the cell is observed as changed block bytes. */
+    MIR_reg_t a = new_reg (&b, MIR_T_I64, "a"), v = new_reg (&b, MIR_T_I64, "v");
+    MIR_reg_t pend[40];
+    int npend = 0, defer = strchr (c->seq, 'X') != NULL;
+    char buf[sizeof (c->seq)];
+    if (c->x.kind != 'm') {
+      snprintf (err_msg, sizeof (err_msg), "@MEMSEQ: operand x must be a memory operand");
+      longjmp (err_jmp, 1);
+    }
+    I2 (MIR_MOV, RO (a), blk (&b, MIR_T_I64, 32));
+    I2 (MIR_MOV, RO (v), sp_src (&b, &c->y, 1));
+    I2 (MIR_MOV, RO (r), IO (7));
+    strcpy (buf, c->seq);
+    for (char *st = strtok (buf, ","); st != NULL; st = strtok (NULL, ",")) {
+      if (st[0] == 'X') continue;
+      if (st[0] == 'B') {
+        MIR_insn_t l = MIR_new_label (ctx);
+        app (&b, MIR_new_insn (ctx, MIR_JMP, MIR_new_label_op (ctx, l)));
+        app (&b, l);
+        continue;
+      }
+      char tn[8];
+      long off = 0;
+      char *at = strchr (st, '@');
+      if (at != NULL) {
+        *at = 0;
+        off = strtol (at + 1, NULL, 10);
+      }
+      strncpy (tn, st + 1, 7);
+      tn[7] = 0;
+      MIR_type_t ty = type_of_name (tn);
+      MIR_op_t m = MIR_new_mem_op (ctx, ty, off, a, 0, 1);
+      if (st[0] == 'L') {
+        MIR_reg_t t = new_reg (&b, MIR_T_I64, "t");
+        I2 (MIR_MOV, RO (t), m);
+        if (defer && npend < 40) {
+          pend[npend++] = t;
+        } else {
+          I3 (MIR_MUL, RO (r), RO (r), IO (1000003));
+          I3 (MIR_ADD, RO (r), RO (r), RO (t));
+        }
+      } else if (st[0] == 'S') {
+        I2 (MIR_MOV, m, RO (v));
+        I3 (MIR_MUL, RO (v), RO (v), IO (5));
+        I3 (MIR_ADD, RO (v), RO (v), IO (0x1234567));
+      } else {
+        snprintf (err_msg, sizeof (err_msg), "@MEMSEQ: unknown step %s", st);
+        longjmp (err_jmp, 1);
+      }
+    }
+    for (int i = 0; i < npend; i++) {
+      I3 (MIR_MUL, RO (r), RO (r), IO (1000003));
+      I3 (MIR_ADD, RO (r), RO (r), RO (pend[i]));
+    }
   } else {
     snprintf (err_msg, sizeof (err_msg), "unknown special case %s", c->opname);
     longjmp (err_jmp, 1);
